@@ -158,6 +158,20 @@ def rule_c08(prog, rep):
             for x in walk(g.body):
                 if x.get('kind') == 'MemberExpr' and x.get('name') == fld and (x.get('_field') or ('',))[0] == 'qlisttbl_s':
                     actual.add(g.name)
+        # a function also consults the field when a helper it calls does (transitively)
+        changed = True
+        while changed:
+            changed = False
+            for g in prog.funcs_in(UNIT):
+                if g.name in actual or g.name == 'qlisttbl':
+                    continue
+                for x in walk(g.body):
+                    if x.get('kind') == 'CallExpr':
+                        from .frontend import Ext
+                        if any((not isinstance(c, Ext)) and c.name in actual for c in prog.callees(g.unit, x)):
+                            actual.add(g.name)
+                            changed = True
+                            break
         ok = readers <= actual
         rep.oblige('L4', ok, {'field': fld, 'read_by': sorted(actual)})
         if not ok:
